@@ -17,6 +17,18 @@ DO = "PEPit/tools/dict_operations.py"
 BP = "PEPit/block_partition.py"
 
 BREAK = [
+    # ---- the stores of a weighted sum as a system, the public entry, the constraint constructor, the tables of a hook that fills its own
+    ("oracle-second-value", ["C07"], F, "        if associated_grad_and_function_val and not self.reuse_gradient:\n            f = associated_grad_and_function_val[-1]",
+     "        if associated_grad_and_function_val and not self.reuse_gradient:\n            f = Expression()", "R-FUNCSYS"),
+    ("remainder-value-sign", ["C07"], F, "value_of_last_leaf_function = value_of_last_leaf_function - weight * val", "value_of_last_leaf_function = value_of_last_leaf_function + weight * val", "R-FUNCSYS"),
+    ("lookup-by-identity", ["C07"], F, "if triplet[0].decomposition_dict == point_decomposition_dict:", "if triplet[0] is point:", "R-FUNCSYS"),
+    ("entry-reuses-backend", ["C13"], P, "        wrapper = WRAPPERS[wrapper_name](verbose=verbose)\n\n        # Check",
+     "        wrapper = self.wrapper if self.wrapper is not None and self.wrapper_name == wrapper_name else WRAPPERS[wrapper_name](verbose=verbose)\n\n        # Check", "R-ENTRY"),
+    ("entry-fallback-keeps-mosek", ["C11"], P, "            wrapper_name = \"cvxpy\"\n            wrapper = WRAPPERS[wrapper_name](verbose=verbose)", "            wrapper_name = \"cvxpy\"", "R-ENTRY"),
+    ("constraint-normalised-sign", ["C06"], "PEPit/constraint.py", "        self.expression = expression\n",
+     "        self.expression = -expression if expression.decomposition_dict.get(1, 0) > 0 else expression\n", "R-CONSCTOR"),
+    ("block-table-row-by-second-sample", ["C17"], "PEPit/functions/block_smooth_convex_function.py", "tables_of_constraints[k][i].append(constraint)", "tables_of_constraints[k][j].append(constraint)", "R-HOOKTABLE"),
+    ("block-name-function-id-lost", ["C17"], "PEPit/functions/block_smooth_convex_function.py", "        if function_id is None:", "        if function_id is not None:", "R-HOOKTABLE"),
     # ---- class formulas (C03 tightenings also break C04; relaxations break C04 only)
     ("ssc-denominator", ["C03", "C04"], "PEPit/functions/smooth_strongly_convex_function.py", "(1 - self.mu / self.L)", "(1 - 2 * self.mu / self.L)", "R-FORMULA"),
     ("qg-factor", ["C03", "C04"], "PEPit/functions/convex_qg_function.py", "1 / (2 * self.L) * gj ** 2", "1 / self.L * gj ** 2", "R-FORMULA"),
@@ -169,6 +181,11 @@ BREAK = [
 
 # behaviour-preserving edits: (id, file, old, new) -- every check must stay silent
 BENIGN = [
+    # both are the value of the pair (gradient, value) the lookup returns
+    ("value-index-one", F, "            # If the value already exist, simply return it\n            f = associated_grad_and_function_val[-1]",
+     "            # If the value already exist, simply return it\n            f = associated_grad_and_function_val[1]"),
+    ("entry-wrapper-factory", P, "        wrapper = WRAPPERS[wrapper_name](verbose=verbose)\n\n        # Check",
+     "        make = lambda name: WRAPPERS[name](verbose=verbose)\n        wrapper = make(wrapper_name)\n\n        # Check"),
     # the 'must be solved' ValueError of the expression then reaches the caller unchanged: still the documented kind of error (C16 names the type)
     ("constraint-lets-the-expression-error-through", "PEPit/constraint.py", "        except ValueError:", "        except TypeError:"),
     ("callback-as-lambda", "PEPit/functions/convex_function.py", "set_class_constraint_i_j=self.set_convexity_constraint_i_j,", "set_class_constraint_i_j=lambda xi, gi, fi, xj, gj, fj: fi - fj >= gj * (xi - xj),"),
